@@ -695,10 +695,10 @@ func kctlRun(env *runner.Env) *runner.Result {
 	w.setupCluster()
 	w.newIncarnation()
 	maxSteps := 400 + 60*k.nOps
-	for i := 0; i < maxSteps && w.viol == nil; i++ {
+	for i := 0; i < maxSteps && w.viol == nil && !w.halt; i++ {
 		if w.quiescent() && w.inc.started {
 			w.atQuiescence()
-			if w.viol != nil {
+			if w.viol != nil || w.halt {
 				break
 			}
 			w.settling = false
@@ -714,7 +714,7 @@ func kctlRun(env *runner.Env) *runner.Result {
 		}
 	}
 	// faults stop; the system must reach quiescence in a bounded number of steps
-	if w.viol == nil {
+	if w.viol == nil && !w.halt {
 		w.faultsOn = false
 		w.opsLeft = 0
 		for _, wk := range w.inc.workers {
@@ -734,7 +734,7 @@ func kctlRun(env *runner.Env) *runner.Result {
 			}
 		} else if w.inc.started {
 			w.atQuiescence()
-			if w.viol == nil && env.On("C03") {
+			if w.viol == nil && !w.halt && env.On("C03") {
 				w.resyncCheck()
 			}
 		}
